@@ -280,8 +280,37 @@ def _e_matchor_one(F, o, st, chk):
     return g.src + '\x00' + f.src
 
 
+def _e_arglike_slice(F, o, st, chk):
+    """slice copy of an arglike-only argument: resolved by _get_opt_eff_pars_arglike (the single-element copy is not)"""
+    r = F('call(x, *not a, y)').get_slice(1, 3, 'args', **o).src
+    chk.api('get_slice')
+    return r
+
+
+def _e_arglike_get(F, o, st, chk):
+    r = F('call(*not a)').get(0, 'args', **o).src
+    chk.api('get')
+    return r
+
+
+def _e_arglike_to_list(F, o, st, chk):
+    f = F('call(x, *not a)')
+    g = F('[z]')
+    g.put_slice(f.get_slice(0, 2, 'args', **o), 1, 1, 'elts', **copy_opts(o))
+    chk.api('put_slice')
+    return g.src
+
+
+def _e_arglike_bases_cut(F, o, st, chk):
+    f = F('class C(x, *a or b): pass')
+    s = f.get_slice(0, 2, 'bases', cut=True, **o)
+    chk.api('get_slice')
+    return s.src + '\x00' + f.src
+
+
 NORM_EDITS = [_e_set_del, _e_set_get, _e_del_empty, _e_body_empty, _e_matchor_empty, _e_matchor_one]
-PARS_EDITS = [_e_copy_par, _e_replace_binop, _e_replace_par, _e_walrus, _e_arglike]
+PARS_EDITS = [_e_copy_par, _e_replace_binop, _e_replace_par, _e_walrus, _e_arglike, _e_arglike_slice, _e_arglike_get,
+              _e_arglike_to_list, _e_arglike_bases_cut]
 
 
 # -- edits that consume the `op` / `op_side` options (Compare slices need an extra operator) -------------------------
@@ -384,7 +413,8 @@ def _e_persist(F, o, st, chk):
 
 
 EDITS = [_e_copy_par, _e_replace_binop, _e_replace_par, _e_walrus, _e_arglike, _e_cut_stmt, _e_set_del, _e_set_get,
-         _e_pep8, _e_elif, _e_docstr, _e_del_empty, _e_body_empty, _e_matchor_empty, _e_matchor_one,
+         _e_pep8, _e_elif, _e_docstr, _e_arglike_slice, _e_arglike_get, _e_arglike_to_list, _e_arglike_bases_cut,
+         _e_del_empty, _e_body_empty, _e_matchor_empty, _e_matchor_one,
          *CMP_EDITS, *_UNPAR, *_READS, *_RECONCILE, _e_persist]
 READ_IDS = [EDITS.index(e) for e in _READS]
 RECONCILE_IDS = [EDITS.index(e) for e in _RECONCILE]
